@@ -107,3 +107,24 @@ package unary
 //@ lemma pickIsExactCount(sL int64, sU int64, eL int64, eU int64, mid int64)
 //@   requires 0 <= sL && (sU == sL || sU == sL + 1) && 0 <= eL && (eU == eL || eU == eL + 1) && 0 <= mid && sU <= eU + mid && eU <= 1152921504606846975 && mid <= 1152921504606846975
 //@   ensures SpecSamplesBefore(index.DistanceApproximation{Approximation: index.Between(eL - sU + mid, eU - sL + mid), StartExact: sU == sL, EndExact: eU == eL}) == eU - sU + mid
+
+//@ # ---------------------------------------------------------------- writes go through the gate (C05)
+//@ # "only writes from the controlling writer are persisted": the bytes reach the domain writer only
+//@ # on the path where Gate.Authorize returned the resource without error, and a closed writer or an
+//@ # invalid series never gets that far
+//@ ignorepkg github.com/synnaxlabs/cesium/internal/channel
+//@ ignorepkg github.com/synnaxlabs/cesium/internal/domain
+//@ ignore func (w *Writer) updateHwm()
+//@ ignore func (w *controlledWriter) loadAlignment() telem.Alignment
+//@ ignore func (w *controlledWriter) storeAlignment()
+//@ ignore func (t *offsetTracker) count() int64
+//@ ignore func (t *offsetTracker) record()
+//@ func (w *Writer) write(series telem.Series, a telem.Alignment, derive bool) (out telem.Alignment, err error)
+//@   pragma wraps uint32 conversions of sample counts and byte offsets inside a domain (domains stay below 4 GiB)
+//@   pragma opaque_func_values wrapError
+//@   pragma abstract NewAlignment AddSamples DomainIndex
+//@   overflow off
+//@   requires w.control != nil && w.cfg.Persist != nil
+//@   # the gate is attached to a region whose resource (the controlled domain writer) exists
+//@   requires control.SpecGateOK(w.control) && control.SpecGateResource(w.control) != nil && control.SpecGateResource(w.control).tracker != nil
+//@   assert_before "_, err = dw.Write(series.Data)" err == nil && !w.closed && dw == control.SpecGateResource(w.control)
